@@ -19,7 +19,27 @@ META = {
 SHARD_DEADLINE = {'quick': 300, 'thorough': 3300}
 CASE_TIMEOUT = {'quick': 25, 'thorough': 120}
 SERIES = ['exp', 'sqrt', 'norm', 'normalized', 'pow2', 'pow3', 'pow-1', 'pow0.5']
-ALLOPS = ops.BINARY + [o for o in ops.UNARY if o != 'sqrt'] + SERIES
+REGISTERED = ['reg_grade', 'reg_mix', 'reg_unary']
+ALLOPS = ops.BINARY + [o for o in ops.UNARY if o != 'sqrt'] + SERIES + REGISTERED
+_REG = {}
+
+
+def registered(alg, op):
+    key = (id(alg), op)
+    if key not in _REG:
+        if op == 'reg_grade':
+            def reg_grade(a, b):
+                return (a * b).grade(1, 2) + a.grade(0, 2) - b.grade(1)
+            _REG[key] = alg.register(reg_grade)
+        elif op == 'reg_mix':
+            def reg_mix(a, b):
+                return (a ^ b) + 2 * (a | b) - ~b
+            _REG[key] = alg.register(reg_mix)
+        else:
+            def reg_unary(a):
+                return a.reverse().grade(0, 1, 2) * 3 - a.involute()
+            _REG[key] = alg.register(reg_unary)
+    return _REG[key]
 
 
 def floors(tier):
@@ -112,6 +132,8 @@ def series_operand(ctx, alg, iso, op):
 def apply(alg, op, mvs):
     if op in ops.BINARY or op in ops.UNARY:
         return ops.call_op(alg, op, *mvs)
+    if op in REGISTERED:
+        return registered(alg, op)(*mvs)
     x = mvs[0]
     if op == 'exp':
         return x.exp()
@@ -131,7 +153,7 @@ def one_case(ctx, alg, iso, cfg, name, op):
     canon = tuple(alg.canon2bin.values())
     to = CASE_TIMEOUT[ctx.tier]
     composite = op in ops.COMPOSITE_BIN or op in ops.COMPOSITE_UN or op in SERIES
-    arity = 2 if op in ops.BINARY else 1
+    arity = 2 if (op in ops.BINARY or op in ('reg_grade', 'reg_mix')) else 1
     cap = 4 if composite else 8
     if op in SERIES:
         vm = series_operand(ctx, alg, iso, op)
@@ -141,7 +163,7 @@ def one_case(ctx, alg, iso, cfg, name, op):
         valmaps = [vm]
         keysets = [tuple(sorted(vm, key=pos.__getitem__))]
         zero = 0.0
-    elif op in ops.POLYNOMIAL:
+    elif op in ops.POLYNOMIAL or op in REGISTERED:
         keysets = [gen.random_subset(rng, canon, cap, 1) for _ in range(arity)]
         valmaps = [{k: FreePoly.var(f'{p}{k}') for k in ks} for ks, p in zip(keysets, 'ab')]
         zero = FreePoly.const(0) if rng.random() < 0.5 else 0
@@ -154,7 +176,7 @@ def one_case(ctx, alg, iso, cfg, name, op):
         ctx.count('trivial_variant_not_counted')
         return
     cid = [name, op, [list(k) for k in keysets], [list(v[0]) for v in variants],
-           [[str(vm[k]) for k in ks] for vm, ks in zip(valmaps, keysets)] if op not in ops.POLYNOMIAL else 'generic']
+           [[str(vm[k]) for k in ks] for vm, ks in zip(valmaps, keysets)] if (op not in ops.POLYNOMIAL and op not in REGISTERED) else 'generic']
     if not ctx.want(cid):
         return
     base = [mk(alg, ks, vm, zero) for ks, vm in zip(keysets, valmaps)]
